@@ -6,9 +6,10 @@ Correspondence
                 including tolerance 0 and out-of-domain covering vectors; `ERR:ZeroDivisionError` for d_i == 0).
   * `lemke`   : the model at exact rationals (same tolerances as the code, and tolerance 0 = the theorems'
                 setting on exactly representable data): success/status/num_iter/basis compared exactly whenever
-                the exact run met no tie in a ratio test (`ties=0`); z inside an envelope.  On degenerate runs
-                (ties>0) floating-point noise may legitimately break a tie differently: such divergences are
-                counted, not alarmed -- the bit-exact `lemkef` comparison covers those cases.
+                the exact run met no tie and no near-tie (`ties=0`, `near=0`: every ratio comparison and
+                pivot-threshold comparison of the exact run has a margin > 1e-9 relative); z inside an envelope.
+                On the other runs floating-point noise may legitimately resolve a comparison differently:
+                such divergences are counted, not alarmed -- the bit-exact `lemkef` comparison covers them.
   * `firstrowf` / `firstrow`: the hand-written first ratio test; the code's choice is read off the basis
                 after a `max_iter=1` call (the row holding the artificial variable).
   The tolerances are read from the library (`PivOptions()` = 1e-7 / 1e-13, *not* the constants of pivoting.py);
@@ -430,12 +431,21 @@ def run(ctx):
         def cmp_rat(mo, impl, scale=scale, n=n):
             a, b = parse_out(mo), parse_out(impl)
             ties = int(a.get("ties", "0"))
+            near = int(a.get("near", "0"))
             disc = all(a[k] == b[k] for k in ("success", "status", "num_iter", "basis"))
+            if near > ties:
+                ctx.count("near-tie-runs(no exact tie, margin < 1e-9 rel.)" if ties == 0 else "near-tie-runs(with ties)")
             if not disc:
+                # exact path comparison only on runs whose every ratio / pivot-threshold comparison has an exact
+                # margin above 1e-9 (relative): there rounding (1e-16) cannot change a decision.  Ties and
+                # near-ties may legitimately be resolved differently by the floating-point code.
                 if ties > 0:
                     ctx.count("rat-vs-code:tie-broken-differently")
                     return None
-                return "discrete outputs differ on a run without ties"
+                if near > 0:
+                    ctx.count("rat-vs-code:near-tie-broken-differently")
+                    return None
+                return "discrete outputs differ on a run without ties or near-ties"
             ctx.count("rat-vs-code:same-path" + ("(ties)" if ties else ""))
             if ties:
                 ctx.count("lexico-tie-runs")
